@@ -50,12 +50,20 @@ Theorem C11_refuted_two_docs_one_entity :
 Proof. reflexivity. Qed.
 Print Assumptions C11_refuted_two_docs_one_entity.
 
+(* a positional argument that is a comparison (`a == 1`) is not read as the keyword `a=`, whatever the parameters are called *)
+Theorem comparison_is_not_a_keyword : forall a b params,
+  forallb (fun x => negb (N.eqb x 61%N)) a = true -> check_optional (a ++ 61%N :: 61%N :: b) params = None.
+Proof. exact comparison_not_keyword. Qed.
+Print Assumptions comparison_is_not_a_keyword.
+
 Example C11_nonvacuous :
   let ps := [s2l "n"; s2l "x"; s2l "tol=tol"; s2l "verbose=verbose"] in
   active_param [s2l "5"; s2l " y"; s2l " "] ps = 2 /\
   active_param [s2l "5"; s2l " VERBOSE = .true."] ps = 3 /\
   active_param [s2l "5"; s2l " tol=1.0"; s2l " "] ps = 3 /\
   check_optional (s2l " Tol = 1") ps = Some 2 /\
+  check_optional (s2l " n == 1") ps = None /\ check_optional (s2l "tol=n==0") ps = Some 2 /\ check_optional (s2l " x =") ps = Some 1 /\
+  active_param [s2l "5"; s2l " n == 1"; s2l " "] ps = 2 /\
   map (fun e => dlookup e (docs (drun [Fwd 1; Obj 10; Obj 11; Back 2; Fwd 3; Fwd 4; Obj 12]))) [10; 11; 12] = [Some 1; Some 2; Some 4].
 Proof. vm_compute. repeat split. Qed.
 Print Assumptions C11_nonvacuous.
